@@ -31,6 +31,7 @@ type Val struct {
 	Fn  *ssa.Function // function value (static)
 	Bnd []Val         // closure bindings
 	Nm  string        // callback parameter name, when the value is a func-typed parameter
+	Box string        // interface values: the term that was boxed, when statically known
 }
 
 type State struct {
@@ -132,6 +133,9 @@ type FnTrans struct {
 	gaddr map[string]string
 	mayHavePublished bool
 	tfBound string
+	staticArgs map[string]ssa.Value
+	viaCalls bool
+	viaNoted map[string]bool
 }
 
 type deferRec struct {
@@ -207,9 +211,48 @@ func (t *FnTrans) oblige(kind, goal string, note string) {
 	t.obligeNamed(fmt.Sprintf("%s.%d", kind, n), kind, goal, note)
 }
 
+// splitAnd returns the conjuncts of a top-level (and ...) term.
+func splitAnd(s string) []string {
+	if !strings.HasPrefix(s, "(and ") || !balanced(s[1:len(s)-1]) {
+		return []string{s}
+	}
+	body := s[5 : len(s)-1]
+	var out []string
+	depth, start := 0, 0
+	inq := false
+	for i, c := range body {
+		switch {
+		case c == '|':
+			inq = !inq
+		case inq:
+		case c == '(':
+			depth++
+		case c == ')':
+			depth--
+		case c == ' ' && depth == 0:
+			if i > start {
+				out = append(out, body[start:i])
+			}
+			start = i + 1
+		}
+	}
+	if start < len(body) {
+		out = append(out, body[start:])
+	}
+	var flat []string
+	for _, o := range out {
+		flat = append(flat, splitAnd(o)...)
+	}
+	return flat
+}
+
 func (t *FnTrans) obligeNamed(name, kind, goal, note string) {
-	if goal == "true" {
-		// trivially true: still counted as an obligation, discharged syntactically
+	if parts := splitAnd(goal); len(parts) > 1 && len(parts) <= 40 {
+		// one obligation per conjunct (each may use the earlier ones): smaller queries, sharper reports
+		for i, p := range parts {
+			t.obligeNamed(fmt.Sprintf("%s/%d", name, i+1), kind, p, note)
+		}
+		return
 	}
 	o := &Obligation{Name: t.oblPrefix() + "::" + name, Kind: kind, NLines: len(t.lines), Guard: t.guard, Goal: goal, Expect: "unsat", Fn: t.oblPrefix(), Note: note}
 	if t.curInstr != nil {
@@ -277,6 +320,31 @@ func (t *FnTrans) resolve(T types.Type) types.Type {
 		}
 	}
 	return T
+}
+
+// typeParam: a type parameter of the function (or of its receiver type) by name.
+func (t *FnTrans) typeParam(name string) types.Type {
+	if tps := t.fn.TypeParams(); tps != nil {
+		for i := 0; i < tps.Len(); i++ {
+			if tps.At(i).Obj().Name() == name {
+				return t.resolve(tps.At(i))
+			}
+		}
+	}
+	fn := t.fn
+	for fn.Parent() != nil {
+		fn = fn.Parent()
+	}
+	if recv := fn.Signature.Recv(); recv != nil {
+		if n, ok := derefNamed(recv.Type()); ok && n.TypeArgs() != nil {
+			for i := 0; i < n.TypeArgs().Len(); i++ {
+				if tp, ok := n.TypeArgs().At(i).(*types.TypeParam); ok && tp.Obj().Name() == name {
+					return t.resolve(tp)
+				}
+			}
+		}
+	}
+	return nil
 }
 
 func typeName(T types.Type) string {
@@ -610,8 +678,10 @@ func (t *FnTrans) typedFresh(comp, term string) {
 		bound = t.tfBound
 	}
 	body := func(x string) string {
-		if ii, ok := intInfoOf(T); ok {
-			return ii.inRange(x)
+		if _, ok := intInfoOf(T); ok {
+			// integer ranges are supplied as ground facts at each load (quantified range axioms made
+			// unrelated quantified obligations unstable)
+			return ""
 		}
 		switch T.Underlying().(type) {
 		case *types.Slice:
@@ -682,8 +752,14 @@ func (t *FnTrans) ptrOf(v ssa.Value) *Ptr {
 	return t.ptrFromRef(val.S, pt.Elem())
 }
 
+var reAddrTerm = regexp.MustCompile(`^\((\|?)addr\$([^ |]+)\|? (.+)\)$`)
+
 func (t *FnTrans) ptrFromRef(ref string, elem types.Type) *Ptr {
 	elem = t.resolve(elem)
+	if m := reAddrTerm.FindStringSubmatch(ref); m != nil {
+		// a materialised interior pointer: back to the field it denotes
+		return &Ptr{Kind: "field", Comp: m[2], Ref: m[3], T: elem}
+	}
 	if _, ok := elem.Underlying().(*types.Struct); ok {
 		return &Ptr{Kind: "obj", Ref: ref, T: elem}
 	}
@@ -791,8 +867,22 @@ func (t *FnTrans) strConst(s string) string {
 	return n
 }
 
+// typeKey: identity of a dynamic type; instantiations of one generic type are not distinguished
+// (within one generic function they coincide).
+func typeKey(T types.Type) string {
+	switch x := T.(type) {
+	case *types.Pointer:
+		return "*" + typeKey(x.Elem())
+	case *types.Named:
+		return typeName(x.Origin())
+	case *types.Alias:
+		return typeKey(types.Unalias(x))
+	}
+	return T.String()
+}
+
 func (t *FnTrans) typeID(T types.Type) string {
-	k := t.resolve(T).String()
+	k := typeKey(t.resolve(T))
 	id, ok := t.typeIDs[k]
 	if !ok {
 		id = len(t.typeIDs) + 1
